@@ -193,3 +193,24 @@ pub fn parse_json_variants(kt: KeyType, s: &str) -> Vec<(&'static str, LibOut)> 
         ]
     })
 }
+
+/// (to_base64(), Display, JSON) of the record OBJECT obtained by parsing `s` (from_str), and of the
+/// one obtained through serde from the quoted string; also a serialisation into a writer that is too
+/// small (must fail) followed by a normal one (must be unaffected).
+pub fn parsed_object_forms(kt: KeyType, s: &str) -> Option<Result<Vec<(String, String, String)>, String>> {
+    with_key_type!(kt, K => {
+        let e = s.parse::<Enr<K>>().ok()?;
+        Some(guarded(|| {
+            let mut out = Vec::new();
+            let mut small = [0u8; 16];
+            let _ = serde_json::to_writer(&mut small[..], &e);
+            out.push((e.to_base64(), format!("{e}"), serde_json::to_string(&e).unwrap_or_default()));
+            let c = e.clone();
+            out.push((c.to_base64(), format!("{c}"), serde_json::to_string(&c).unwrap_or_default()));
+            if let Ok(e2) = serde_json::from_str::<Enr<K>>(&serde_json::to_string(s).unwrap()) {
+                out.push((e2.to_base64(), format!("{e2}"), serde_json::to_string(&e2).unwrap_or_default()));
+            }
+            out
+        }))
+    })
+}
